@@ -223,7 +223,7 @@ class ExprMixin:
             return self.ufunc(f'mk_tuple_{len(els)}', *([OPQ] * len(els)), OPQ)(*els) if els else z3.Const('empty_tuple', OPQ)
         if v.k == 'ref':
             return self.ufunc('of_ref', INT, OPQ)(v.t)
-        if v.k == 'obj':
+        if v.k in ('obj', 'dict', 'list'):
             return self.ufunc('of_ref', INT, OPQ)(z3.IntVal(-v.t))
         if v.k == 'const' and isinstance(v.t, str):
             return self.ufunc('of_str', SEQ, OPQ)(seq_of_str(v.t))
@@ -369,6 +369,10 @@ class ExprMixin:
         if {a.k, b.k} == {'ref', 'obj'}:
             r, o = (a, b) if a.k == 'ref' else (b, a)
             return r.t == self.elem_code(o)
+        if a.k == 'opq' and b.k == 'opq':
+            return a.t == b.t
+        if a.k == 'opq' or b.k == 'opq':
+            return z3.BoolVal(False)
         raise Unsupported(f'is: {a} {b}')
 
     def equal(self, a, b):
